@@ -1009,6 +1009,9 @@ class SemanticErrorChecker:
                 return False
             if expression["left"] == "(" and expression["right"] == ")":
                 return self.expression_is_number(expression["binOp"], task)
+            elif expression["binOp"] in ["And", "Or"]:
+                # a boolean, not a number (its own operands have to be booleans)
+                return False
             else:
                 return self.expression_is_number(
                     expression["left"], task
